@@ -732,7 +732,10 @@ BEM_SEPARATORS = [{}, {}, {}, {'bem.element': '-e-'}, {'bem.modifier': '--'}, {'
 # value from the NAMES of its tokens (bem.py stringify_value / update_class), so the fields of that value never reach
 # output.field: expand('span[class="c ${1:k}"]', bem.enabled) gives class="c k" (reported in the final message of branch
 # v2-szc13).  Switch on once that is settled; every stream then keeps its expected structure under the layer.
-BEM_WITH_CLASS_FIELDS_ON = False
+BEM_WITH_CLASS_FIELDS_ON = True      # listed finding C13:bem-class-value-fields-lost
+KEY_BEM_CLASS_FIELDS = 'C13:bem-class-value-fields-lost'
+KEY_BARE_REPEAT = 'C13:implicit-repeater-without-text-empty-leaf'
+BARE_REPEAT_RE = re.compile(r'\*(?!\d)')
 CLASS_FIELD_RE = re.compile(r'''class=(?:"[^"]*|'[^']*|[^\s\]"']*)\$\{''')
 
 
@@ -765,7 +768,7 @@ def bem_layer(rng, cfg, p, abbr):
 HALF_TYPED_ON = True
 # `div*`: on the UNCHANGED library the leaf comes out as <div></div> with no tabstop at all (reported in the final message of
 # branch v2-szc13); switch on once that is settled -- the stream then expects the leaf's tabstop.
-HALF_TYPED_BARE_REPEAT_ON = False
+HALF_TYPED_BARE_REPEAT_ON = True     # listed finding C13:implicit-repeater-without-text-empty-leaf
 HALF_NAMES = ['div', 'p', 'span', 'section', 'em', 'li', 'td', 'ul', 'custom', 'x-y', 'nav']
 HALF_DONE_ATTRS = [('title', [[0]]), ('alt=""', [[0]]), ('data-v=v', []), ('data-f=${3}${1:v}', [[3, 1]]), ('lang="u v"', []),
                    ('bind={e}', []), ('model={${2:m}.${1}}', [[2, 1]]), ("data-e=''", [[0]])]
@@ -1148,8 +1151,12 @@ def run(ctx):
     for (abbr, cfg, meta), r in zip(cases, impl):
         bad = oracle(abbr, cfg, meta, r)
         if bad:
-            listed = (cfg.get('syntax') in fu.INDENT_SYNTAXES and EMPTY_PRIMARY_RE.search(abbr))
-            ctx.property_failure(KEY_EMPTY_PRIMARY if listed else 'C13:%s|%s' % (abbr, canon_cfg(cfg)),
+            listed = KEY_EMPTY_PRIMARY if (cfg.get('syntax') in fu.INDENT_SYNTAXES and EMPTY_PRIMARY_RE.search(abbr)) else None
+            if not listed and (cfg.get('options') or {}).get('bem.enabled') and CLASS_FIELD_RE.search(abbr):
+                listed = KEY_BEM_CLASS_FIELDS          # BEM on and a class value that carries fields
+            if not listed and BARE_REPEAT_RE.search(abbr) and not cfg.get('text'):
+                listed = KEY_BARE_REPEAT               # an implicit repeater and no text to wrap
+            ctx.property_failure(listed or 'C13:%s|%s' % (abbr, canon_cfg(cfg)),
                                  'C13 expand(%r, %s): %s' % (abbr, canon_cfg(cfg), bad),
                                  {'component': 'C13', 'abbr': abbr, 'config': cfg, 'meta': meta, 'why': bad})
         if r[0] == 'ok':
